@@ -544,9 +544,12 @@ func runC09(c *CaseCtx) (res CaseResult) {
 		case op == 1: // Redefine in world 1 only
 			var ropts []am.Arg
 			ropts = append(ropts, in1.AllArgs(k, r)...)
-			if r.Intn(2) == 0 {
+			switch r.Intn(3) {
+			case 0:
 				f, _ := randomFilter(r)
 				ropts = append(ropts, am.FilterInput(f))
+			case 1:
+				ropts = append(ropts, am.FilterInput(inputTypesFilter(&s)))
 			}
 			o := DoRedefine(in1.W, in1.Target.Func, ropts)
 			res.Evals++
@@ -676,6 +679,9 @@ func runC09Concurrent(c *CaseCtx, r *rand.Rand) (res CaseResult) {
 						args = append(args, InputArg(l, in.W.FreshInput(call, i, l)))
 					}
 					args = append(args, in.ConvArgs...)
+					// admit only the types of the supplied values, so that the
+					// plan has to go through the converters
+					args = append(args, am.FilterInput(inputTypesFilter(&s)))
 					o := DoRedefine(nil, in.Target.Func, args)
 					mu.Lock()
 					res.Evals++
@@ -755,4 +761,15 @@ func runC09Concurrent(c *CaseCtx, r *rand.Rand) (res CaseResult) {
 	res.obs("concurrent_rounds", 1)
 	res.Sample = map[string]interface{}{"scenario": s.String(), "goroutines": G, "gomaxprocs": procs}
 	return res
+}
+
+
+// inputTypesFilter admits exactly the types of the scenario's supplied
+// values: a plan under this filter has to chain the converters.
+func inputTypesFilter(s *Scenario) am.FilterFunc {
+	ok := map[int]bool{}
+	for _, l := range s.Inputs {
+		ok[l.Type] = true
+	}
+	return func(v am.Value) bool { return ok[typeIndex(v.Type)] }
 }
